@@ -24,7 +24,7 @@ import z3                                            # noqa: E402
 from pyvc import frontend, contracts, verify, solve  # noqa: E402
 from pyvc import ext_numpy, ext_pandas                # noqa: E402,F401
 from pyvc.values import Unsupported                   # noqa: E402
-from pyvc import plugins                              # noqa: E402,F401
+from pyvc import plugins, lemmas_c06                  # noqa: E402,F401
 
 VENV_PY = "/venv/bin/python"
 IDEALISATIONS = [
@@ -139,6 +139,7 @@ def run_property(prop, tier, seed, timeout, args, t_start):
             rep = verify.verify_function(repo, reg, q)
             reports.append(rep)
             all_obl.extend(rep.obligations)
+            all_obl.extend(verify.lemma_obligations(repo, reg, q))
         except Unsupported as e:
             errors.append((q, f"UNSUPPORTED {e}"))
         except KeyError as e:
@@ -161,9 +162,20 @@ def run_property(prop, tier, seed, timeout, args, t_start):
     for pr in plug_results:
         all_obl.extend(pr.get("obligations", []))
 
-    results = solve.solve_all(all_obl, timeout=timeout, cross=(tier == "thorough"), seed=seed)
+    is_canary = [ob.meta.get("kind") == "canary" for ob in all_obl]
+    main_idx = [i for i, c in enumerate(is_canary) if not c]
+    can_idx = [i for i, c in enumerate(is_canary) if c]
+    results = [None] * len(all_obl)
+    for i, r in zip(main_idx, solve.solve_all([all_obl[i] for i in main_idx], timeout=timeout,
+                                               cross=(tier == "thorough"), seed=seed)):
+        r["idx"] = i
+        results[i] = r
+    # canaries only need to be *not provable*: short budget, no retry, no second solver
+    for i, r in zip(can_idx, solve.solve_all([all_obl[i] for i in can_idx], timeout=3, seed=seed, cvc5=False)):
+        r["idx"] = i
+        results[i] = r
     # retry undecided ones once with 4x budget and another seed
-    undec = [r["idx"] for r in results if r["status"] == "unknown"]
+    undec = [r["idx"] for r in results if r["status"] == "unknown" and not is_canary[r["idx"]]]
     if undec:
         sub = [all_obl[i] for i in undec]
         r2 = solve.solve_all(sub, timeout=timeout * 4, seed=seed + 7)
@@ -186,6 +198,7 @@ def run_property(prop, tier, seed, timeout, args, t_start):
         g["instances"].append(r)
     engine_errors = list(errors)
     failed, canary_bad = [], []
+    canary_groups = {}
     discharged = 0
     solver_time = 0.0
     per_obl = []
@@ -195,9 +208,8 @@ def run_property(prop, tier, seed, timeout, args, t_start):
         if any(r.get("disagree") for r in g["instances"]):
             engine_errors.append((name, "solver disagreement: " + "; ".join(r["detail"] for r in g["instances"])))
         if g["kind"] == "canary":
-            ok = any(s == "sat" for s in sts) or (all(s != "unsat" for s in sts))
-            if all(s == "unsat" for s in sts):
-                canary_bad.append(name)
+            cg = canary_groups.setdefault(base_name(name), {"sts": [], "function": g["function"]})
+            cg["sts"].extend(sts)
             continue
         status = "discharged" if all(s == "unsat" for s in sts) else ("refuted" if any(s == "sat" for s in sts) else "undecided")
         solvers = sorted({r["solver"] for r in g["instances"] if r["solver"]})
@@ -217,10 +229,16 @@ def run_property(prop, tier, seed, timeout, args, t_start):
                 failed.append((it["name"], {"instances": [], "meta": it, "function": it.get("function"), "plugin": it}, it["status"]))
         engine_errors.extend(pr.get("errors", []))
     failed_funcs = {g.get("function") or g["meta"].get("function") for _, g, _ in failed}
-    canary_bad = [n for n in canary_bad if groups[n]["function"] not in failed_funcs]
+    canary_bad = [n for n, cg in canary_groups.items() if all(s == "unsat" for s in cg["sts"])
+                  and cg["function"] not in failed_funcs]
     n_obl = len(per_obl)
-    vacuous = [r["name"] for r in reach_res if r["status"] == "unsat"]
-    canaries = sorted(n for n, g in groups.items() if g["kind"] == "canary")
+    # a contract is vacuous when NO type variant of the function has a satisfiable precondition
+    by_fun = {}
+    for r in reach_res:
+        by_fun.setdefault(r["name"].split("/reach")[0], []).append(r["status"])
+    vacuous = [f for f, sts in by_fun.items() if all(s == "unsat" for s in sts)]
+    unreachable_variants = [r["name"] for r in reach_res if r["status"] == "unsat"]
+    canaries = sorted(canary_groups)
 
     # ---- refutations -> replay on the real code
     known = load_known()
@@ -304,6 +322,7 @@ def run_property(prop, tier, seed, timeout, args, t_start):
             "solver_time_s": round(solver_time, 2),
             "canaries_refuted": [c for c in canaries if c not in canary_bad],
             "reachability_checks": len(reach_res),
+            "type_variants_excluded_by_preconditions": unreachable_variants,
             "bounded_standins": bounded,
             "not_decided": sum((pr.get("not_decided", []) for pr in plug_results), []) + plugins.NOT_DECIDED.get(prop, []),
             "repo_source_digest": repo.source_digest(),
